@@ -40,6 +40,9 @@ pub enum PKind {
     FixedLen(u8),
     /// rejected by the default verifier (trailing instruction after exit) but harmless to run
     Invalid,
+    /// rejected by the default verifier: a local call in dead code whose target lies far outside
+    /// the program. Harmless to interpret; the x86-64 JIT is not expected to cope with it.
+    InvalidCall,
 }
 
 const OFFSETS: [(usize, usize); 3] = [(0, 8), (8, 0), (16, 40)];
@@ -76,7 +79,7 @@ pub fn pool() -> Vec<(PKind, Vec<u8>)> {
             asm(&[mov(0, 4), Insn::new(CALL, 0, 1, 0, 1), exit, Insn::new(alu_opc(true, ALU_MOV, true), 6, 10, 0, 0), Insn::new(CALL, 0, 1, 0, 1), exit, Insn::new(alu_opc(true, ALU_MOV, true), 0, 6, 0, 0), Insn::new(alu_opc(true, ALU_SUB, true), 0, 10, 0, 0), exit, exit]),
         ),
         (PKind::Invalid, asm(&[mov(0, 44), exit, mov(0, 45)])),
-        (PKind::Invalid, asm(&[mov(0, 55), exit, mov(0, 46)])),
+        (PKind::InvalidCall, asm(&[mov(0, 55), exit, Insn::new(CALL, 0, 1, 0, 1000)])),
     ];
     for (k, (d, e)) in OFFSETS.iter().enumerate() {
         // r0 = *(r1+E) - *(r1+D) + 3000 (+k): the packet length through the configured offsets
@@ -465,7 +468,12 @@ pub fn check(mem: &Mem10, h: &History) -> (Verdict, bool) {
         for (k, op) in h.ops.iter().enumerate().take(nops) {
             let rec = sh.recs[k];
             let fail = |sig: &str, why: String| (Verdict::fail(sig, format!("step {k}: {why}\n{}", describe(k))), false);
-            if *op == Op::CraneliftCompile && st.prog.map(|p| pool[p].0 == PKind::Invalid).unwrap_or(false) {
+            if *op == Op::JitCompile && st.prog.map(|p| pool[p].0 == PKind::InvalidCall).unwrap_or(false) {
+                // the JIT on a call whose target is outside the program (loaded under accept-all):
+                // outside the property (and outside C12, which is about default-accepted programs)
+                return (Verdict::Discard("jit-on-out-of-range-local-call"), false);
+            }
+            if *op == Op::CraneliftCompile && st.prog.map(|p| matches!(pool[p].0, PKind::Invalid | PKind::InvalidCall)).unwrap_or(false) {
                 // Cranelift on a program the default verifier rejects (loaded under accept-all):
                 // outside the property
                 return (Verdict::Discard("cranelift-on-default-invalid-program"), false);
@@ -537,7 +545,7 @@ pub fn check(mem: &Mem10, h: &History) -> (Verdict, bool) {
                         Some(p) => {
                             let calls_missing = matches!(pool[p].0, PKind::Helper(id) if !st.helpers.iter().any(|h| h.0 == id));
                             let local = matches!(pool[p].0, PKind::Frame | PKind::Nest);
-                            let invalid = pool[p].0 == PKind::Invalid;
+                            let invalid = matches!(pool[p].0, PKind::Invalid | PKind::InvalidCall);
                             if invalid && !is_jit {
                                 // Cranelift on a default-invalid program: outside the property
                                 return (Verdict::Discard("cranelift-on-default-invalid-program"), false);
